@@ -159,7 +159,7 @@ func ExploreNotify(newWorld func(sc NotifyScenario) NotifyWorld, initData string
 				lockWait++
 			}
 		}
-		if lockWait > 0 {
+		if lockWait > 0 && r.Err == "" {
 			c.OK, c.Sig = false, "deadlock: threads wait for mutexes that are never released"
 			c.Note = fmt.Sprintf("%s: schedule %v ends with %d thread(s) waiting for a held mutex", what, r.Sched, lockWait)
 		}
